@@ -76,6 +76,7 @@ import DD.ParseDriver
 import DDProofs.Reach4New
 import DDProps.C08XCopy
 import DDProps.C17Capacity
+import DDProps.C17Capacity2
 open Std
 
 namespace DD
